@@ -304,6 +304,19 @@ pub fn run(run: &mut Run) -> PResult {
     run.rule = "hands of 2..7 slots over {52 cards, blank} with repetition: every multiset of sizes 2 and 3 (thorough: 4), proptest hands of every size with forced repeats, blanks and a few non-card words; token texts; 64-bit sets: empty, full, singletons, rank groups, sets with overflow bits, sparse and dense random; histories of up to 80 operations (fold_in, peel, has, count, is_valid, is_single) run step by step against a u64 set model; for every generated set the complete peel sequence to exhaustion plus three extra peels. Non-trivial = hands with a duplicate, a blank or a non-card word / sets with >= 2 members or overflow bits / histories containing a peel after a fold-in; distinct by 64-bit hash".into();
     run.assume("number_of_cards on sets with overflow bits is compared with the plain population count (what Two::try_from's error classes rely on)");
     super::regress::replay_dir(run, "C15", check_case)?;
+    {
+        let mut sets: Vec<u64> = vec![0, ALL52, u64::MAX, !ALL52, 1 << 52, (1 << 52) | 1, 0x8000000000001];
+        for b in (0..64).step_by(3) {
+            sets.push(1u64 << b);
+        }
+        for r in 0..13 {
+            sets.push((0..4).fold(0u64, |m, s| m | card::bit_of(card::word(r, s))));
+        }
+        disturbance_pass(run, &sets, &|x| peel_all_clause(*x), &|x| ("C15.peel_all".into(), json!({"set": format!("{:#x}", x)}), format!("{:#x}", x)))?;
+        let d = card::DECK;
+        let hands: Vec<Vec<u32>> = vec![vec![d[0], d[1]], vec![d[0], d[0]], vec![d[0], 0, d[51]], vec![d[3], d[3], d[4], 0], vec![d[0], d[1], d[2], d[3], d[4]], vec![d[5], d[6], d[7], d[8], d[9], d[5]], vec![d[0], d[13], d[26], d[39], d[12], d[51], d[51]], vec![0; 7], vec![d[7] | card::PAIR, d[7], u32::MAX, 1, d[8], d[9], d[10]]];
+        disturbance_pass(run, &hands, &|ws| from_hand_clause(ws), &|ws| ("C15.from_hand".into(), hand_json(ws), card::render_hand(ws)))?;
+    }
     let thorough = run.tier == Tier::Thorough;
     // E: all multisets of small sizes over cards + blank
     {
@@ -464,6 +477,9 @@ pub fn run(run: &mut Run) -> PResult {
 }
 
 pub fn check_case(clause: &str, case: &Value) -> Result<(), String> {
+    if clause.ends_with(".after_disturbance") {
+        return super::common::replay_after_disturbance(case, check_case);
+    }
     match clause {
         "C15.from_hand" => from_hand_clause(&engine::parse_words(&case["words"])?),
         "C15.from_text" => text_clause(case["text"].as_str().ok_or("text")?),
@@ -477,6 +493,18 @@ pub fn check_case(clause: &str, case: &Value) -> Result<(), String> {
 pub fn run_c16(run: &mut Run) -> PResult {
     run.rule = "every value with one or two bits set (64 + 2,016, plus 0), and proptest 64-bit values of every population count, through Two::try_from(BinaryCard): expected result class by population count and overflow bits, the two cards in deck order, and conversion back to the same set. Non-trivial = two-bit values (1,326 valid, 690 touching an overflow bit) and values of other population counts near the boundary; distinct = distinct values".into();
     super::regress::replay_dir(run, "C16", check_case_c16)?;
+    {
+        let mut vals: Vec<u64> = vec![0, u64::MAX, ALL52];
+        for a in 0..64u32 {
+            vals.push(1u64 << a);
+            for b in a + 1..64 {
+                if (a * 64 + b) % 5 == 0 {
+                    vals.push((1u64 << a) | (1u64 << b));
+                }
+            }
+        }
+        disturbance_pass(run, &vals, &|x| two_clause(*x), &|x| ("C16.try_from".into(), json!({"set": format!("{:#x}", x)}), format!("{:#x}", x)))?;
+    }
     let mut n = 0u64;
     let mut nt = 0u64;
     let mut valid2 = 0u64;
@@ -564,6 +592,9 @@ pub fn run_c16(run: &mut Run) -> PResult {
 }
 
 pub fn check_case_c16(clause: &str, case: &Value) -> Result<(), String> {
+    if clause.ends_with(".after_disturbance") {
+        return super::common::replay_after_disturbance(case, check_case_c16);
+    }
     match clause {
         "C16.fuzz" | "C15.fuzz" => super::fuzz::check_fuzz_case(case),
         "C16.sequence" => {
